@@ -1,6 +1,6 @@
 (* C07 — non-vacuity examples *)
 From Coq Require Import ZArith List Lia Permutation.
-From FV Require Import Lib.RustInt C05.Model C05.Proofs C05.Examples C07.Proofs C07.Equiv C07.PromoteModel C07.Promote C07.IdGen C07.IdCounter.
+From FV Require Import Lib.RustInt C05.Model C05.Proofs C05.Examples C07.Proofs C07.Equiv C07.PromoteModel C07.Promote C07.IdGen C07.IdCounter C07.SharedPtsModel C07.SharedPts.
 Import ListNotations.
 Open Scope Z_scope.
 
@@ -81,7 +81,20 @@ Example c07_id_counter_example :
   id_of_draw_bits 32 (2 ^ 32) < id_of_draw_bits 32 (2 ^ 32 - 1) /\
   incr_nat [3; 4; 100; 700]%nat /\ (forall i, In i [3; 4; 100; 700]%nat -> Z.of_nat i < feasible_bound).
 Proof.
-  repeat split; try (vm_compute; reflexivity); try (cbn; lia).
-  intros i Hi. cbn [In] in Hi. unfold feasible_bound. assert (2 ^ 62 = 4611686018427387904) by reflexivity.
-  destruct Hi as [<-|[<-|[<-|[<-|[]]]]]; rewrite H; reflexivity.
+  split; [vm_compute; reflexivity|]. split; [vm_compute; reflexivity|]. split; [vm_compute; reflexivity|].
+  split; [cbn [incr_nat]; lia|].
+  intros i Hi. cbn [In] in Hi.
+  destruct Hi as [<-|[<-|[<-|[<-|[]]]]]; vm_compute; reflexivity.
 Qed.
+
+(* ---- round 4: shared point numbers ---- *)
+(* 3-way tie: the first-seen packing wins; with a strict winner (three uses of {2,5}) the hypotheses of
+   c07_shared_points_strict_winner_order_independent hold and the reversed map gives the same answer *)
+Example c07_shared_points_example :
+  compute_shared_points [(Some [8; 11], 4); (Some [14; 17], 4); (Some [2; 5], 4); (Some [14; 17], 4); (Some [2; 5], 4); (Some [8; 11], 4)]
+    = Some (Some [8; 11]) /\
+  compute_shared_points_perm (@rev cand) [(Some [8; 11], 4); (Some [2; 5], 4); (Some [2; 5], 4); (Some [2; 5], 4); (Some [8; 11], 4)]
+    = Some (Some [2; 5]) /\
+  compute_shared_points [(Some [8; 11], 4); (None, 1)] = None /\
+  check_scase (SCase tie_tuples (Some (Some [1; 3]))) = true /\ check_scase (SCase tie_tuples (Some (Some [2; 4]))) = false.
+Proof. repeat split; vm_compute; reflexivity. Qed.
